@@ -226,14 +226,25 @@ func Harness_C08_initialize_gate() {
 	legit.Env.Tape.Exists = false
 	_, lerr := legit.FS.Initialize("/", os.ModePerm)
 	vm.Assert("C08.setup_signed_root", lerr == nil && len(legit.Env.Tape.Segs) >= 1)
+	// ... and a legitimately written, signed directory
+	vm.Assert("C08.setup_signed_directory", legit.FS.Mkdir("/docs", 0o755) == nil)
+	var signedDocs *vm.Seg
 	for _, s := range legit.Env.Tape.Segs {
 		if s.Kind == vm.SegMember {
 			t.AddMember(s.Hdr, s.HBlocks, s.Size, nil)
+			signedDocs = s
 		}
 	}
 	t.AddTrailer()
 	// ... followed by a record the key holder never signed
-	switch vm.Choice("forgery", 2) {
+	forgery := vm.Choice("forgery", 3)
+	switch forgery {
+	case 2: // a pax global extended header carrying STFS records, in front of a byte copy of the signed record
+		t.AddMember(&tar.Header{Typeflag: tar.TypeXGlobalHeader, Name: "pax_global_header", Format: tar.FormatPAX, PAXRecords: map[string]string{
+			"STFS.Version": "1",
+			"STFS.Action":  "DELETE",
+		}}, 2, 0, nil)
+		t.AddMember(signedDocs.Hdr, signedDocs.HBlocks, signedDocs.Size, nil)
 	case 0: // plain unsigned record
 		t.AddMember(&tar.Header{Typeflag: tar.TypeReg, Name: "/forged", Format: tar.FormatUSTAR}, 1, 0, nil)
 	case 1: // wrapper with an attacker-made signature text
@@ -250,7 +261,13 @@ func Harness_C08_initialize_gate() {
 			accepted = true
 		}
 	}
+	docs := false
 	for _, r := range v.Env.P.VerifRows() {
 		vm.Assert("C08.initialize_indexes_only_verified_records", !strings.Contains(r.Name, "forged") || accepted)
+		if strings.Trim(r.Name, "/") == "docs" && r.Deleted != 1 {
+			docs = true
+		}
 	}
+	// what was signed is a directory being made: no unsigned record can turn that into anything else
+	vm.Assert("C08.signed_records_mean_what_was_signed", docs)
 }
